@@ -65,10 +65,23 @@ def case(g, tier, ci):
         ops.append({"op": "sq.addElement", "id": "s", "pos": 2, "el": "ec"})
     for ch in (1, 2):
         ops += [{"op": "sq.setAmp", "id": "s", "ch": ch, "v": 20}, {"op": "sq.setOff", "id": "s", "ch": ch, "v": 0}]
+    settings = []
     if r.random() < 0.5:
-        ops.append({"op": "sq.setDelay", "id": "s", "ch": 1, "v": enc(2 / SR)})
-    ops += [{"op": "sq.copy", "id": "s", "to": "sc"}, {"op": "sq.add", "a": "s", "b": "sc", "to": "ss"}]
-    objs = [("bp", "b"), ("bp", "b2"), ("bp", "bc"), ("bp", "bs"), ("el", "e"), ("el", "ec"), ("sq", "s"), ("sq", "sc"), ("sq", "ss")]
+        settings.append({"op": "sq.setDelay", "ch": 1, "v": enc(2 / SR)})
+    if r.random() < 0.6:
+        # a filter compensation declared BEFORE copying/adding: the nested setting must not be shared
+        settings.append({"op": "sq.setFilter", "ch": r.choice([1, 2]), "kind": r.choice(["HP", "LP"]), "order": r.choice([1, 2]), "orderIsInt": True,
+                         **(r.choice([{"f_cut": enc(SR * 0.1), "tau": None}, {"f_cut": None, "tau": enc(10 / SR)}]))})
+    ops += [{**st, "id": "s"} for st in settings]
+    # an empty sequence carrying the same settings (the `total = Sequence(); total = total + part` idiom)
+    ops += [{"op": "sq.new", "id": "s0"}, {"op": "sq.setSR", "id": "s0", "v": enc(SR)}]
+    for ch in (1, 2):
+        ops += [{"op": "sq.setAmp", "id": "s0", "ch": ch, "v": 20}, {"op": "sq.setOff", "id": "s0", "ch": ch, "v": 0}]
+    ops += [{**st, "id": "s0"} for st in settings]
+    ops += [{"op": "sq.copy", "id": "s", "to": "sc"}, {"op": "sq.add", "a": "s", "b": "sc", "to": "ss"},
+            {"op": "sq.add", "a": "s0", "b": "s", "to": "es"}]
+    objs = [("bp", "b"), ("bp", "b2"), ("bp", "bc"), ("bp", "bs"), ("el", "e"), ("el", "ec"), ("sq", "s"), ("sq", "sc"), ("sq", "ss"),
+            ("sq", "es")]
     if have_sub:
         objs.append(("sq", "u"))
     real = [(n, f) for n, f in segs if f != "waituntil"]
